@@ -3,6 +3,7 @@ package c17
 
 import (
 	"fmt"
+	"strconv"
 	"strings"
 	"testing"
 	"unicode/utf8"
@@ -235,6 +236,19 @@ func runSnake(c snakeCase, r *pb.Rec) error {
 	if strings.Contains(camel, "_") {
 		return fmt.Errorf("SnakeToCamelCase(%q) = %q still contains '_'", x, camel)
 	}
+	if len(x)%97 == 13 {
+		// the same identifier again after 5000 other identifiers went through both functions: still the same answer
+		for i := 0; i < 5000; i++ {
+			o := "w" + strconv.Itoa(i) + "_q" + strconv.Itoa(i%7) + "_z"
+			if b := strz.CamelCaseToSnake(strz.SnakeToCamelCase(o, i%2 == 0)); b != o {
+				return fmt.Errorf("CamelCaseToSnake(SnakeToCamelCase(%q)) = %q", o, b)
+			}
+		}
+		if c2, b2 := strz.SnakeToCamelCase(x, c.FirstUp), strz.CamelCaseToSnake(camel); c2 != camel || b2 != x {
+			return fmt.Errorf("after 5000 other identifiers: SnakeToCamelCase(%q) = %q (before %q), CamelCaseToSnake(%q) = %q (before %q)", x, c2, camel, camel, b2, x)
+		}
+		r.Class("identifier converted again after 5000 others")
+	}
 	r.NonTrivialIf(len(c.Words) >= 2)
 	r.ClassIf(c.FirstUp, "firstUp")
 	return nil
@@ -269,6 +283,6 @@ func init() {
 	pb.Register("helpers", pb.Options{Base: 40000, Required: []string{"invalid UTF-8 input", "huge argument", "start beyond length", "multi-rune mask", "rune removed"},
 		Rule: "Sub/Mask/SubByDisplay/Rev+Len/RemoveRunes on strings of 0..10 runes mixing 1-4 byte runes (1 in 4 with invalid byte sequences), arguments 0..runes+3 and huge; oracle = []rune definitions + utf8.ValidString for valid input, no panic for any input; non-trivial = >= 2 runes with a multi-byte or invalid one"},
 		genStr, runStr)
-	pb.Register("snake_camel", pb.Options{Base: 8000, Rule: "identifiers word(_word)*, word=[a-z][a-z0-9]*, both firstUp values; oracle CamelCaseToSnake(SnakeToCamelCase(x)) == x; non-trivial = >= 2 words"},
+	pb.Register("snake_camel", pb.Options{Base: 8000, Required: []string{"identifier converted again after 5000 others"}, Rule: "identifiers word(_word)*, word=[a-z][a-z0-9]*, both firstUp values; oracle CamelCaseToSnake(SnakeToCamelCase(x)) == x; non-trivial = >= 2 words"},
 		genSnake, runSnake)
 }
